@@ -8,6 +8,7 @@ import IxpeVerif.Model.Select
 import IxpeVerif.Model.SelectKw
 import IxpeVerif.Model.Channels
 import IxpeVerif.Model.Hist
+import IxpeVerif.Model.Kislat
 /-! Dispatcher of the hand-written models for the line-protocol driver.  Integers travel in decimal. -/
 namespace Driver
 
@@ -72,6 +73,12 @@ def cmapIdx (nside : Nat) : List Int → List Int
     let x := fbits p1 + 0.5
     let y := fbits p0 + 0.5
     optIdx (Hist.binIndex edges (fkey x)) :: optIdx (Hist.binIndex edges (fkey y)) :: cmapIdx nside rest
+  | _ => []
+
+def showFs (xs : List Float) : String := " ".intercalate (xs.map fun x => toString x.toBits)
+
+def kEvents : List Int → List (Kislat.Ev Float)
+  | q :: u :: e :: w :: mu :: a :: rest => ⟨fbits q, fbits u, fbits e, fbits w, fbits mu, fbits a⟩ :: kEvents rest
   | _ => []
 
 def rowsOf : List Int → List EvL.Row
@@ -162,6 +169,18 @@ def step (ws : List String) : String :=
   | "cmap" :: ns :: rest =>
     let (v, _) := takeN rest
     showInts (cmapIdx ns.toNat! (ints v))
+  -- kbin I Q U mu W2   (f64 bits)  -> per-bin outputs of calculate_stokes_errors / calculate_polarization(degrees) / mdp99 / n_eff
+  | ["kbin", i, q, u, mu, w2] =>
+    let (I, Q, U, MU, W2) := (fw i, fw q, fw u, fw mu, fw w2)
+    let e := Kislat.stokesErrors I Q U MU W2
+    let p := Kislat.polarization I Q U MU W2 true
+    showFs [e.QN, e.UN, e.dI, e.dQ, e.dU, e.dQN, e.dUN, e.cov, e.pval, e.conf, p.pd, p.pdErr, p.pa, p.paErr, Kislat.mdp99 MU I W2, Kislat.nEff I W2]
+  -- krow <useWeights> <acceptcorr> <emin> <emax> <6n> (q u e w mu aeff)…  -> counts, then the row of polarization_table
+  | "krow" :: uw :: ac :: emin :: emax :: rest =>
+    let (ev, _) := takeN rest
+    let ps := Kislat.prep (uw == "1") (ac == "1") (kEvents (ints ev))
+    let s := Kislat.binSums (fw emin) (fw emax) ps
+    toString s.counts ++ " " ++ showFs (Kislat.row s)
   | ["pikey", pi] => showInts [piKey pi.toInt!]
   | ["split", t] => let r := EvL.splitTime t.toInt!; showInts [r.1, r.2]
   | _ => "bad-op"
